@@ -181,3 +181,17 @@ Example C01_example :
   option_map t_rows (match g_emit g with Ok t => Some t | _ => None end) =
   Some [[(lit "_sum", VInt 3); (lit "k", VStr (lit "a"))]; [(lit "_sum", VInt 0); (lit "k", VStr (lit "b"))]].
 Proof. vm_compute. reflexivity. Qed.
+
+(** KF-06 - "every aggregate column holds its own function" is FALSE when two functions of one stage have the same
+    output name (here the default name of two sums): they share one slot, the first is lost, and the column is
+    listed twice.  The witness replayed on the binary is the known finding. *)
+Theorem C01_same_name_aggregates_refuted :
+  exists lines q t,
+    out (run_pipeline (fun _ => true) q lines) = Ok (OTable t) /\
+    t_cols t = [lit "_sum"; lit "_sum"] /\ t_rows t = [[(lit "_sum", VInt 10)]].
+Proof.
+  exists [lit "{""a"": 1, ""b"": 10}"],
+         [SJson None; SAgg [(lit "_sum", FSum (ECol (lit "a") [])); (lit "_sum", FSum (ECol (lit "b") []))] []].
+  eexists. split; [vm_compute; reflexivity|split; reflexivity].
+Qed.
+Print Assumptions C01_same_name_aggregates_refuted.
